@@ -387,7 +387,10 @@ class Producer(object):
         # payload (topic/partition) level.
         payloads = []
         for (topic, partition), reqs in reqsByTopicPart.items():
-            if self.client._api_versions != 0:
+            # Message format 1 needs a broker known to speak Produce v2. Until version
+            # discovery has succeeded (None = not yet run, 0 = failed) use format 0,
+            # which every produce version accepts.
+            if self.client._api_versions:
                 msgSet = create_message_set(reqs, self.codec, magic=1)
             else:
                 msgSet = create_message_set(reqs, self.codec)
